@@ -53,7 +53,7 @@ MANIFEST = {
              'C18_no_error hold for every update sequence, every key selector, every reservoir capacity, every random '
              'outcome and every clock of the Gallina transcription of VARZ_DATA / _SampleSet / Aggregate / '
              'CalculatePercentile; the transcription is run in lock-step with the real code (fresh Source object per '
-             'update) on ~1.1k (quick) / ~9k (thorough) generated histories per run, including end-to-end runs through a '
+             'update) on ~1.3k (quick) / ~7.4k (thorough) generated histories per run, including end-to-end runs through a '
              'real MessageDispatcher.'),
     'note': ('Trusted: Coq kernel; the correspondence harness (harness/props/c18.py) and its sampling; float outputs '
              'compared within 1e-9, float decisions modelled by an explicit binary64 rounding. All theorems closed under '
@@ -270,11 +270,11 @@ def gen_target(r):
 def gen_cases(tier, seed):
   quick = tier == 'quick'
   out = []
-  n_run = 700 if quick else 6500
+  n_run = 700 if quick else 4500
   for i in range(n_run):
     r = C.case_rng(seed, PID, i)
     out.append(gen_run(r))
-  n_res = 40 if quick else 400
+  n_res = 40 if quick else 300
   for i in range(n_res):
     r = C.case_rng(seed, PID + 'res', i)
     out.append(gen_reservoir(r, r.choice([2, 3, 5, 8, 12, 30]), r.choice([1, 1, 2, 3, 5]), r.choice([10, 40, 120]),
@@ -282,9 +282,9 @@ def gen_cases(tier, seed):
   for i in range(1 if quick else 3):          # the production capacity, past the point where it is full
     r = C.case_rng(seed, PID + 'big', i)
     out.append(gen_reservoir(r, 1000, 1, 1030))
-  for i in range(60 if quick else 500):
+  for i in range(60 if quick else 400):
     out.append(gen_e2e(C.case_rng(seed, PID + 'e2e', i)))
-  for i in range(200 if quick else 1500):
+  for i in range(200 if quick else 1200):
     out.append(gen_pct(C.case_rng(seed, PID + 'pct', i)))
   for i in range(120 if quick else 600):
     out.append(gen_down(C.case_rng(seed, PID + 'down', i)))
@@ -616,7 +616,10 @@ def run_impl(case):
         data = {'m': {}}
         for i in range(count):
           data['m'][V.Source(service='s', endpoint=''.join(['e', str(i)]))] = V._SampleSet(max(n, 1), [float(x) for x in range(n)])
-        V.VarzAggregator.Aggregate(data, {'m': V.VarzType.AverageTimer})
+        try:
+          V.VarzAggregator.Aggregate(data, {'m': V.VarzType.AverageTimer})
+        except (IndexError, TypeError, ZeroDivisionError, AttributeError):
+          pass                      # only the size passed to _Downsample is observed here
       finally:
         V.VarzAggregator._Downsample = staticmethod(orig)
       ts = set(seen.get('t', []))
@@ -652,7 +655,8 @@ def _approx(a, b, scale):
 class _Ref(object):
   """Reference bookkeeping of one history: per metric, per field tuple."""
 
-  def __init__(self, types):
+  def __init__(self, types, cap=1000):
+    self.cap = cap
     self.types = dict((m, ty) for m, ty in types)
     self.kinds = {}          # m -> set of update kinds used
     self.cells = {}          # m -> {tuple: {'sum': Fraction, 'last': value, 'samples': [..]}}
@@ -674,13 +678,14 @@ class _Ref(object):
 
   def update(self, m, kind, src, v):
     self.kinds.setdefault(m, set()).add(kind)
-    c = self.cells.setdefault(m, {}).setdefault(tuple(src), {'sum': Fraction(0), 'last': None, 'samples': []})
+    c = self.cells.setdefault(m, {}).setdefault(tuple(src), {'sum': Fraction(0), 'last': None, 'samples': [], 't': None})
     if kind == 'inc':
       c['sum'] += Fraction(1 if v is None else v)
     elif kind == 'set':
       c['last'] = v
     else:
       c['samples'].append(v)
+      c['t'] = self.now
 
 
 def _check_dump(ref, dump, v, where):
@@ -800,14 +805,16 @@ def _check_agg(ref, sel, o, v, where, pcts=None):
         c = raw.get(m, {}).get(ts[0])
         if not c or 'res' not in c or not c['res']:
           continue
-        if o['now'] - c['last'] >= 300:
-          continue                      # a series not updated for MAX_AGG_AGE is reported as empty
+        w = cells[ts[0]]
+        surely_fresh = len(w['samples']) <= ref.cap and w['t'] is not None and ref.now - w['t'] < 300
+        if o['now'] - c['last'] >= 300 and not surely_fresh:
+          continue                      # a series without a retained sample for MAX_AGG_AGE is reported as empty (count 0)
         _check_pcts_single(gotk[k][0], c['res'], v, '%s metric %s key %r' % (where, m, k), pcts)
 
 
 def _monitor_run(case, obs):
   v = []
-  ref = _Ref(case['types'])
+  ref = _Ref(case['types'], case['cap'])
   for i, (op, o) in enumerate(zip(case['ops'], obs['steps'])):
     where = 'op %d' % i
     if op[0] == 'K':
